@@ -354,6 +354,9 @@ func (h *WorkloadHandler) handleDaemonSet(newObj, oldObj *kruiseappsv1alpha1.Dae
 		return false, nil
 	}
 
+	if newObj.Spec.UpdateStrategy.RollingUpdate == nil {
+		newObj.Spec.UpdateStrategy.RollingUpdate = &kruiseappsv1alpha1.RollingUpdateDaemonSet{}
+	}
 	newObj.Spec.UpdateStrategy.RollingUpdate.Partition = pointer.Int32(math.MaxInt16)
 	state := &util.RolloutState{RolloutName: rollout.Name}
 	by, _ := json.Marshal(state)
